@@ -52,4 +52,8 @@ PROPS = {
         {"id": "C08", "quick_n": 3000, "thorough_n": 400000, "quick_s": 60, "thorough_s": 900, "timeout": 120,
          "rule": "server DAG (<=48 commits) x ref tips x wants x multi-round have batches x depth x shallow commits; real finder per round vs graph model (closure, order, reachability, tables, refusal, step budget); non-trivial = >=2 rounds or (>=1 ack and >=1 merge commit listed); distinct by plan hash"},
     ]},
+    "C07": {"level": "exploration", "profiles": [
+        {"id": "C07", "quick_n": 1500, "thorough_n": 200000, "quick_s": 60, "thorough_s": 900, "timeout": 120,
+         "rule": "source repo (DAG <=14, shared blocks) x pre-populated destination x tips x table depth x max packfile size x packfile read partition, real sender->packfile->receiver; adversarial object orders; non-trivial = (>=2 packfiles or pre-populated destination) and >=2 commits sent; distinct by plan hash"},
+    ]},
 }
